@@ -27,7 +27,7 @@ BODIES = {(a, b): rtf.RTFBody(border_first=BF, border_last=BL, border_top=UT if 
 
 def build(tier, seed):
     quick = tier == "quick"
-    T = 120 if quick else 900
+    T = 240 if quick else 900
     obs = []
     shapes = [(2, 2)] if quick else [(2, 2), (3, 2), (1, 1)]
     for (R, C), pf, ps in itertools.product(shapes, range(3), range(3)):
